@@ -56,11 +56,14 @@ CLAIMED = {
          "For 1.2e3/2e4 histories of crew operations (create / replace state / replace spec / uncompilable spec / delete / re-create, via captain messages and direct calls) interleaved with messages, a store folded from Result.Changed exactly like sio/stdio.go must equal the live crew after every message, and a crew booted from the JSON-round-tripped store at every message boundary (crash points enumerated) must give the same emissions and machine states for the rest of the history.",
          "Machines' reactions commute; captain and timers service machines are not compared; a missing stored state is the boot default.", "DESIGN.md §4 C15"),
  "C14": ("exploration", "recorder machines + routing reference model replayed against reported emissions",
-         "For 3e3/5e4 crews of 0-6 recorder machines and histories whose messages script up to 3 generations of routed and unrouted follow-ups (targets: absent, id, unknown id, '*', lists with unknown / repeated / non-string members, service names; hostile crew-op and timer payloads), the model replays Result.Emitted breadth-first and predicts every machine's log as a sequence; service machines must act only on what is addressed to them. sio (single-loop crew) part; the mcrew part is described in DESIGN.md.",
+         "For 3e3/5e4 crews of 0-6 recorder machines and histories whose messages script up to 3 generations of routed and unrouted follow-ups (targets: absent, id, unknown id, '*', lists with unknown / repeated / non-string members, service names; hostile crew-op and timer payloads), the model replays Result.Emitted breadth-first and predicts every machine's log as a sequence; service machines must act only on what is addressed to them. The same recorders hosted in mcrew's Service (in-package): after quiescence each machine's log and the Emitted / Processing / websocket channels must equal the model's multisets.",
          "Numbers / objects as routing targets are recorded, not judged; batches of one round are matched as a multiset.", "DESIGN.md §4 C14"),
  "C17": ("exploration", "online trace monitor on timer events + pending-set comparator + restart twin, under the Go race detector",
          "mcrew Timers (in-package, the harness is the emitter and issues requests from inside the firing handler) and sio timers (through a real Crew whose input the harness owns; firing observed as delivery to a sink machine; results serialised by a consumer goroutine): per timer fired at most once, never early, never after an acknowledged cancel that preceded its due time; ids reusable from the firing handler; re-created timers cancellable; at quiescent points reported and live pending sets equal accepted - fired - cancelled; timers persisted as JSON resume exactly once on a new crew; zero race reports.",
          "'Eventually fires' restated as fired within 30 s of the due time; cancel acknowledged after the due time overlaps the firing; requests the sio timers machine does not accept are counted, not judged.", "DESIGN.md §4 C17"),
+ "C16": ("fault_enumeration", "memory-vs-store comparator under enumerated store faults + porcupine linearizability check of recorded concurrent histories",
+         "In-package on mcrew's Service with a real bolt store: for 40/400 operation sequences every fault window 0 <= i < j <= n (store closed for operations i..j-1) is run: memory == store after every healthy operation, a failed write leaves memory unchanged, memory == store after recovery; 150/2000 concurrent histories (4-8 clients, 2-3 ids, every store write delayed through the verifPoint hook): final memory == store, no two process results from one machine state, per-machine history linearizable w.r.t. a sequential service model (porcupine).",
+         "Faults injected by closing the bolt database; NoSync commits; porcupine timeout is inconclusive; hook verifPoint at the top of Storage.WriteState.", "DESIGN.md §4 C16"),
 }
 
 NOT_YET = "check not built yet in this session (planned: see DESIGN.md §4)"
